@@ -126,6 +126,53 @@ Fixpoint deliv_check (w : list N) (nh : nat) (ops : list op) (obs : list oobs) (
 Definition seq_property (buffered : bool) (size : Z) (ops : list op) (obs : list oobs) (fin : list subobs) : bool :=
   shape_ok ops obs && win_check buffered size [] [] ops obs && deliv_check [] 0 ops obs fin.
 
+(* ---- W1 (conclusion audit): what the CONSUMER of subscription k sees at each of its receives.
+   sub_check compares the blocks received, the final queue and the final `closed` FIELD, but never
+   whether the CHANNEL was seen closed ("... at which point only that subscriber's channel is
+   closed"): an implementation that sets the field without closing the channel (the subscriber is
+   never told) or that closes the channel of a subscription that never overflowed passed
+   seq_property and was reported as a model mismatch only.  vis_check compares every receive result
+   (got x / empty / closed) of every handle with the reference automaton of Spec.C20_Spec. *)
+Fixpoint cons_of (k : nat) (ops : list op) (obs : list oobs) : list cres :=
+  match ops, obs with
+  | OConsume k' :: ops', ObCons r :: obs' =>
+      if Nat.eqb k' k then r :: cons_of k ops' obs' else cons_of k ops' obs'
+  | _ :: ops', _ :: obs' => cons_of k ops' obs'
+  | _, _ => []
+  end.
+
+Fixpoint ref_cons (cap : N) (v : sview) (evs : list sev) : list cres :=
+  match evs with
+  | [] => []
+  | e :: evs' =>
+      let v' := ref_step cap v e in
+      match e with
+      | EvCons =>
+          (match v_q v with
+           | x :: _ => CGot x
+           | [] => if v_closed v then CClosed else CEmpty
+           end) :: ref_cons cap v' evs'
+      | EvPush _ => ref_cons cap v' evs'
+      end
+  end.
+
+Definition cons_check (k : nat) (cap : N) (B : list N) (post : list op) (obs : list oobs) : bool :=
+  list_eqb cres_eqb (cons_of k post obs) (ref_cons cap (mkView [] B false) (proj k true post)).
+
+Fixpoint vis_check (w : list N) (nh : nat) (ops : list op) (obs : list oobs) : bool :=
+  match ops, obs with
+  | o :: ops', ob :: obs' =>
+      match o, ob with
+      | OPush _, ObPush w' _ => vis_check w' nh ops' obs'
+      | OSubscribe b, ObSub (Some _) cap _ =>
+          cons_check nh cap (burst_of b w) ops' obs' && vis_check w (S nh) ops' obs'
+      | OAttach _, ObSub (Some _) cap _ =>
+          cons_check nh cap [] ops' obs' && vis_check w (S nh) ops' obs'
+      | _, _ => vis_check w nh ops' obs'
+      end
+  | _, _ => true
+  end.
+
 (* ---- concurrent runs: per subscriber, received = burst at some instant x of the push sequence
    followed by the contiguous run of pushes starting at x; complete unless closed or unsubscribed;
    closed only after at least cap = 200 + |burst| blocks were sent to it *)
@@ -167,7 +214,7 @@ Definition c20_verdict (k : c20_case) : N :=
   | CSeq buffered size ops obs fin hang =>
       if hang || existsb is_bad obs then 4%N
       else ((if model_agrees buffered size ops obs fin then 0 else 1) +
-            (if seq_property buffered size ops obs fin then 0 else 2))%N
+            (if seq_property buffered size ops obs fin && vis_check [] 0 ops obs then 0 else 2))%N
   | CConc size P win rdy subs bad =>
       if bad then 4%N else if conc_property size P win rdy subs then 0%N else 2%N
   end.
